@@ -340,6 +340,8 @@ def shrink(prop, op, inp, still_fails, budget=1500):
             if steps >= budget:
                 break
             try:
+                if hasattr(prop, 'normalize'):
+                    cand = prop.normalize(op, cand)
                 if not prop.valid_input(op, cand):
                     continue
                 if still_fails(cand):
